@@ -237,9 +237,12 @@ def gen_reflink(c, depth):
 
 def respell_label(t, label):
     """A spelling of the label that matches after case folding and whitespace collapsing."""
-    k = t.below(6)
+    k = t.below(9)
     if k == 0:
         return label
+    if k >= 6:
+        # padding inside the brackets is stripped before labels are compared
+        return [' ' + label, label + ' ', '  ' + label + ' '][k - 6]
     if k == 1:
         return label.upper() if label.upper().casefold() == label.casefold() else label
     if k == 2:
